@@ -11,6 +11,7 @@ package main
 import (
 	"bufio"
 	"encoding/hex"
+	"encoding/json"
 	"flag"
 	"fmt"
 	"os"
@@ -36,6 +37,7 @@ type resp struct {
 	Class  string // ok | err | panic | dead | hang
 	Code   int
 	Digest []uint64
+	Base   uint64 // allocation of a valid minimal exchange (connection-level decoders only)
 	Alloc  uint64
 	Msg    string
 	Extra  string
@@ -97,7 +99,7 @@ func (w *worker) call(dec string, in []byte) resp {
 			return resp{Class: "dead"}
 		}
 		return parseResp(s)
-	case <-time.After(4 * time.Second):
+	case <-time.After(3 * time.Second):
 		w.kill()
 		return resp{Class: "hang"}
 	}
@@ -107,12 +109,13 @@ func parseResp(s string) resp {
 	// class code alloc digest(comma separated) msg(hex) extra(hex)
 	f := strings.Split(strings.TrimSpace(s), " ")
 	var r resp
-	if len(f) < 6 {
+	if len(f) < 7 {
 		return resp{Class: "dead", Msg: "bad worker line: " + s}
 	}
 	r.Class = f[0]
 	r.Code, _ = strconv.Atoi(f[1])
 	r.Alloc, _ = strconv.ParseUint(f[2], 10, 64)
+	r.Base, _ = strconv.ParseUint(f[6], 10, 64)
 	if f[3] != "-" {
 		for _, x := range strings.Split(f[3], ",") {
 			v, _ := strconv.ParseUint(x, 10, 64)
@@ -130,7 +133,10 @@ func parseResp(s string) resp {
 
 const MiB = 1 << 20
 
-func thr(n int) uint64 { return 64*uint64(n) + MiB }
+// the rule: bytes allocated while decoding / serving <= 128 * |input| + 1 MiB (+ for a whole
+// connection: what a VALID minimal exchange under the same wrapper/transform allocates, e.g. the
+// 1.3 MB a zlib writer needs for the answer, reported by the worker as `base`)
+func thr(n int) uint64 { return 128*uint64(n) + MiB }
 
 func ints(b []byte) []int {
 	o := make([]int, len(b))
@@ -185,6 +191,9 @@ func allocKey(dec string) string {
 	case "bytesS", "strlistS":
 		return "stream-bytes-alloc"
 	}
+	if (strings.HasPrefix(dec, "hs:") || strings.HasPrefix(dec, "hr:")) && (strings.Contains(dec, "zlib") || strings.Contains(dec, "gzip")) {
+		return "inflate-alloc" // the connection handler behind a compressing wrapper
+	}
 	return dec + "-alloc"
 }
 
@@ -198,6 +207,16 @@ func run(dec string, in []byte, class string) resp {
 	}
 	seenIn[k] = struct{}{}
 	r := wk.call(dec, in)
+	if (strings.HasPrefix(dec, "hs:") || strings.HasPrefix(dec, "hr:")) && r.Class != "dead" && r.Class != "hang" && r.Alloc > thr(len(in))+r.Base {
+		// a whole connection: pooled buffers and writers (sync.Pool) are re-allocated after a
+		// garbage collection, which is noise of up to a few MB; an allocation that is out of
+		// proportion repeats: the smallest of three runs is judged
+		for i := 0; i < 2; i++ {
+			if r2 := wk.call(dec, in); r2.Class == r.Class && r2.Alloc < r.Alloc {
+				r.Alloc = r2.Alloc
+			}
+		}
+	}
 	desc := map[string]interface{}{"decoder": dec, "input": ints(in), "hex": hex.EncodeToString(in), "outcome": r.Class, "alloc": r.Alloc}
 	if r.Msg != "" {
 		desc["message"] = r.Msg
@@ -206,7 +225,7 @@ func run(dec string, in []byte, class string) resp {
 	switch {
 	case r.Class == "dead":
 		cls = 2
-	case r.Alloc > thr(len(in)):
+	case r.Alloc > thr(len(in))+r.Base:
 		cls = 1
 	}
 	nontrivial := len(in) > 0 && (r.Class == "ok" || r.Code != 1 || cls != 0)
@@ -234,7 +253,7 @@ func run(dec string, in []byte, class string) resp {
 		fail(dec+" does not return (spins) on input bytes", dec+"-hang", desc)
 	default:
 		if cls == 1 {
-			fail(fmt.Sprintf("%s allocates %d bytes for a %d-byte input", dec, r.Alloc, len(in)), allocKey(dec), desc)
+			fail(fmt.Sprintf("%s allocates %d bytes for a %d-byte input (allowed: %d)", dec, r.Alloc, len(in), thr(len(in))+r.Base), allocKey(dec), desc)
 		}
 		if r.Extra != "" {
 			fail(dec+": "+r.Extra, dec+"-"+strings.SplitN(r.Extra, ":", 2)[0], desc)
@@ -323,6 +342,33 @@ func random(dec string, count, maxLen int) {
 	}
 }
 
+// replayOne runs the single input of a replay file (as written by ./check or seeded/*/replay.json).
+func replayOne(path string) {
+	raw, err := os.ReadFile(path)
+	if err != nil {
+		fmt.Fprintln(os.Stderr, "cannot read the replay file:", err)
+		os.Exit(2)
+	}
+	var r struct {
+		Input struct {
+			Decoder string `json:"decoder"`
+			Hex     string `json:"hex"`
+		} `json:"input"`
+	}
+	if err := json.Unmarshal(raw, &r); err != nil || r.Input.Decoder == "" {
+		fmt.Fprintln(os.Stderr, "not a C04 replay file:", err)
+		os.Exit(2)
+	}
+	in, _ := hex.DecodeString(r.Input.Hex)
+	if strings.HasPrefix(r.Input.Decoder, "h") && profiles == nil {
+		mkProfiles()
+	}
+	run(r.Input.Decoder, in, "replay")
+	if _, ok := coqDec[r.Input.Decoder]; !ok {
+		run("bytesC", []byte{0}, "replay") // at least one model case, so that a shard exists
+	}
+}
+
 // ---------------------------------------------------------------- main
 
 func main() {
@@ -340,7 +386,11 @@ func main() {
 	defer wk.kill()
 
 	t0 := time.Now()
-	generate()
+	if fl.Replay != "" {
+		replayOne(fl.Replay)
+	} else {
+		generate()
+	}
 	out.Extra("worker_spawns", wk.spawn)
 	out.Extra("harness_seconds", time.Since(t0).Seconds())
 	keys := []string{}
